@@ -113,6 +113,14 @@ def discharge(obls, axioms, timeout_ms=10000, canary_ms=1500, ground_sorts=(), s
         elif r == sat: o.status = 'refuted'; o.model = s.model(); o.universe = None
         else:
             o.status = 'undecided'; o.reason = s.reason_unknown()
+            for seed in (7, 23):              # quantifier instantiation is seed-sensitive: two more attempts before other back ends
+                s2 = Solver(); s2.set(timeout=timeout_ms, random_seed=seed); s2.set('smt.random_seed', seed)
+                s2.add(axioms); s2.add(o.hyps); s2.add(Not(o.goal))
+                r2 = s2.check()
+                if r2 == unsat: o.status = 'proved'; break
+                if r2 == sat: o.status = 'refuted'; o.model = s2.model(); o.universe = None; break
+            if o.status != 'undecided':
+                o.secs = time.time() - t; continue
             if second:
                 r2, be = second_opinion(axioms, o.hyps, o.goal)
                 if r2 == 'unsat': o.status = 'proved'; o.backend = be
